@@ -23,7 +23,7 @@ CLAIMED = {
          'in-place forms and powers are model + correspondence only (partial).')),
  'C10': dict(
    technique='Lean 4 theorems (zeroth coefficient of every kernel, comparison = all over zeroth coefficients, shape laws) + NumPy reference oracle',
-   text=('Theorems for all D, P, shapes: zeroth coefficient of every L0 kernel is the NumPy value on zeroth coefficients (leaf or plain arithmetic) independent of higher coefficients; '
+   text=('Theorems for all D, P, shapes: zeroth coefficient of every L0 kernel (also dot, inv, solve over any ring and _eval_slow_generic) is the NumPy value on zeroth coefficients (leaf or plain arithmetic) independent of higher coefficients; '
          'comparison operators are numpy.all over zeroth coefficients and ignore higher ones; element-wise ops keep the shape, binary ops return the broadcast shape. Matrix functions, factorizations '
          'and dispatcher behaviour on plain arrays are checked against numpy/scipy references on the implementation for 79 registered operations (partial: no theorem for those).')),
  'C11': dict(
@@ -49,8 +49,8 @@ CLAIMED = {
  'C16': dict(
    technique='Lean 4 theorems (iteratedDeriv n f x = closed form, by the chain "order n+1 is the derivative of order n") + correspondence + contour-integral oracle',
    text=('Theorems for every order n and every point of the domain: iteratedDeriv n f x equals the closed form of the model for exp, exp2, expm1, log, log2/log10, log1p, sqrt, square, negative, reciprocal, '
-         'sin, cos, sinh, cosh, arctanh; gammaln/psi/polygamma and hyperu relative to the first-order relations of their SciPy leaves. arctan, arcsin, arccos, arcsinh, arccosh, erf, erfi and the piecewise '
-         'functions are modelled exactly (Gaussian rationals / finite sums) and tied by correspondence plus an independent Cauchy-integral oracle on the implementation, without an all-n theorem yet (partial).')),
+         'sin, cos, sinh, cosh, arctanh; gammaln/psi/polygamma and hyperu relative to the first-order relations of their SciPy leaves; the piecewise functions (rint, fix, floor, ceil, trunc, sign: every locally constant function; absolute) away from jumps and kinks. arctan, arcsin, arccos, arcsinh, arccosh, erf, erfi '
+         'are modelled exactly (Gaussian rationals / finite sums) and tied by correspondence plus an independent Cauchy-integral oracle on the implementation, without an all-n theorem yet (partial).')),
  'C03': dict(
    technique='Lean 4 theorem (cell-level tape: reverse sweep is the adjoint of the tangent sweep, any commutative ring, overwrites) + local adjoint lemmas + adjoint-identity oracle',
    text=('Theorem for every tape, heap, tangent and seed over any commutative ring (A = R[t]/(t^D)): <rev tape h seed, dh> = <seed, tan tape h dh>, with in-place overwrites (also buf[i]=buf[i]); local adjoint '
